@@ -29,6 +29,7 @@ open Gallia Gallia.Proto Gallia.Randomize
   h state <session> <saType|-> <seed hex|->
   h req <kind> <pdu hex|-> <a> <b>                    -> reply=<..> session=<n> sa=<type>:<seed hex>|- trace=<seg>;<seg>..
                                                         seg = <hex(seed text)|->:<call>,<call>..   call = R | I<lo>-<hi> | E<mean>
+  h update <dsc|ecureset|tp|saseed|sakey|other> <a> <seed hex|->   -> session=<n> sa=..   (update_state on the current state)
   h sources                                           -> the declared AST tables (handler|sources|free names|draw calls ...)
   h repr <hex>                                        -> hex(utf8(str(bytes)))
 -/
@@ -243,6 +244,24 @@ def hstep (s : St) : List String → St × String
         (s, s!"reply={H.showReply o.reply} session={o.st.session} sa={sa} trace={";".intercalate (o.trace.map H.showSeg)}")
       | none => (s, "bad-op")
     | _, _, _ => (s, "bad-op")
+  | ["update", kind, a, sd] =>
+    match a.toNat?, parseHex sd with
+    | some a, some sd =>
+      let r : Option VEcuRng.Reply := match kind with
+        | "dsc" => some (.dsc a)
+        | "ecureset" => some (.ecuReset a none)
+        | "tp" => some .testerPresent
+        | "saseed" => some (.saSeed a (H.natsOf sd))
+        | "sakey" => some (.saKey a)
+        | "other" => some (.neg a 0)
+        | _ => none
+      match r with
+      | some r =>
+        let st := VEcuRng.updateState s.hstate r
+        let sa := match st.lastSA with | some (t, sd) => s!"{t}:{H.hexNats sd}" | none => "-"
+        (s, s!"session={st.session} sa={sa}")
+      | none => (s, "bad-op")
+    | _, _ => (s, "bad-op")
   | ["sources"] => (s, H.sources)
   | ["repr", h] =>
     match parseHex h with
